@@ -11,7 +11,7 @@ CFG = dict(
                    "RefsResolve, TableUsable, HeadsFull; an injected write error at position n leaves the same state), "
                    "C13_history_consistent (hence every state any history of completed / crashed operations can reach, incl. pull = "
                    "fetch;merge and re-runs), C13_children_first (prune.childrenFirst = Kahn: permutation, every commit after all its "
-                   "to-remove children), C13_rerun_commit / _commit_with_table / _merge_commit / _merge_noff / _fetch / _prune (re-run from any crash "
+                   "to-remove children), C13_rerun_commit / _commit_with_table / _merge_commit / _merge_noff / _fetch / _pull_new_branch / _prune (re-run from any crash "
                    "state succeeds, ends invariant and agrees with the uninterrupted run on ref |-> table + history shape, commit "
                    "nonce = time stamp quotiented; prune: same commits, tables, blocks, block indices, refs), C13_profile_commit / _fetch; "
                    "forbidden orders refuted by witnesses (C13_table_first_commit_refuted, C13_table_first_receive_refuted = tree before "
@@ -30,7 +30,7 @@ CFG = dict(
                    "in-process reference server harness/c09_server.go. STILL RE-ENACTED: only batch fetch / fetch-hostile (kind 6), "
                    "which feeds ObjectReceiver.Receive (real) packfiles whose object ORDER the generator chooses, incl. hostile orders no "
                    "server sends, followed by a copy of the ref rule of saveFetchedRefs. Commits made by the real commit / merge carry "
-                   "time.Now(); the nonce travels in the commit message. The real CLI (wrgl.RootCmd on badger+sqlite) is run "
+                   "time.Now(); the nonce travels in the commit message. `wrgl pull` (op OPull of the model, theorem C13_rerun_pull_new_branch) runs through the REAL CLI on badger+sqlite against the reference server (batch cli-pull): the CLI opens its own stores, so the fault layer is a set of sqlite triggers in the repository's ref store that make ref-store write k and all later ones fail (= a crash right before ref write k), dropped before the re-run; compared with the model on (exit status, ref writes in reflog order, per-fault verdicts, final refs); object-store (badger) faults cannot be injected at the CLI and are covered by the library-level batches. Oracle-only batch cli-tx: `wrgl transaction commit` with the same ref-store fault layer (refs must keep resolving, the re-run completes the transaction; transactions are C14's model). The real CLI (wrgl.RootCmd on badger+sqlite) is also run "
                    "un-crashed: three histories compared with the library-level run, and histories with SHALLOW commits (wrgl pull / "
                    "fetch --depth against the reference server, then wrgl merge in default / --no-ff / --ff-only / --ff and wrgl pull "
                    "--depth) judged for the invariants after every command. The real-binary kill hook (VERIF_CRASH_AT) is not used. Re-run of fetch is proved for a run whose object "
@@ -44,7 +44,7 @@ CFG = dict(
              "merges (modify / add / remove rows, 1..3 blocks, 1..4 workers), fast-forward both ways, identical, ff=never; fetch of "
              "sequences produced by the real ObjectSender (full, incremental, one object per packfile, after an interrupted fetch, "
              "rejected and forced non-fast-forward, shallow) and hostile orders (table before blocks, commit before parent, block-index "
-             "mismatch, advertised commit missing); the real fetch.Fetch against the reference server (full, incremental, two branches, rejected / forced non-fast-forward, after an interrupted fetch incl. 'all objects stored, ref not written', random chains); CLI histories with shallow commits; prune with orphans sharing blocks/tables, early return, after interrupted prunes; orphan sub-DAGs of 4..9 commits with forks and merges of unequal branch lengths (fetched through the real ObjectSender under one branch per tip, branches deleted): fixed witnesses (a<-b<-c<-e + a<-d, orphan merge of two orphan branches, lopsided diamonds, two roots) and random DAGs, every prefix of the commit-deletion phase judged for Closed; "
+             "mismatch, advertised commit missing); the real fetch.Fetch against the reference server (full, incremental, two branches, rejected / forced non-fast-forward, after an interrupted fetch incl. 'all objects stored, ref not written', random chains); CLI histories with shallow commits; `wrgl pull` through the CLI with a crash before every ref-store write (first pull of a branch, tracking ref already present, up to date / fast-forward / real merge into an existing branch, rejected and forced tracking ref); `wrgl transaction commit` with ref-store faults; prune with orphans sharing blocks/tables, early return, after interrupted prunes; orphan sub-DAGs of 4..9 commits with forks and merges of unequal branch lengths (fetched through the real ObjectSender under one branch per tip, branches deleted): fixed witnesses (a<-b<-c<-e + a<-d, orphan merge of two orphan branches, lopsided diamonds, two roots) and random DAGs, every prefix of the commit-deletion phase judged for Closed; "
              "random histories of 2..6 steps (commit, crashed commit, branch, delete branch, fetch, prune) followed by a random "
              "operation. EVERY case enumerates ALL crash prefixes n=0..L (re-run from each) and a write error at every position. "
              "distinct = distinct case text; non-trivial = the operation performs at least one write on a non-empty table / history",
